@@ -1,5 +1,6 @@
 """Shared oracles: outcome classification, structural equality, projection onto builtins."""
 import collections
+import collections.abc
 import datetime as dt
 import decimal
 import enum
@@ -146,6 +147,11 @@ def equal(a, b, _depth=0):
         if (a.tzinfo is None) != (b.tzinfo is None):
             return False
         return a == b
+    if isinstance(a, collections.abc.Iterator) or type(a).__name__ in ("PlainObj", "Evil", "memoryview"):
+        # opaque / one-shot objects decoded twice from the same spec: same type is all that can be compared
+        if type(a).__name__ == "memoryview":
+            return bytes(a) == bytes(b)
+        return True
     try:
         return bool(a == b)
     except Exception:
